@@ -576,9 +576,15 @@ def run(prop, rep, b, tier, seed, only_cases=None):
         cases += exotic_cases()
         for _ in range(n_rand):
             cases.append(chainlab.gen_config(rng))
+        def valid_base(cfg):
+            vs = construction_views(cfg)
+            return (all(v[3] is not None for v in vs) and not c04_defects(cfg) and not any(unresolved(v) for v in vs)
+                    and not any(cyclic(v) for v in vs))
         for d in chainlab.DEFECTS:
-            for _ in range(n_def):
-                cases.append(chainlab.gen_config(rng, defect=d))
+            for k in range(n_def):
+                # half of each stream injects the defect into an otherwise ACCEPTABLE configuration (so that it is the only
+                # reason to reject it), half into an arbitrary one
+                cases.append(chainlab.gen_config(rng, defect=d, valid_base=valid_base if k % 2 == 0 else None))
         for _ in range(150 if tier == 'quick' else 1500):
             cases.append(chainlab.gen_config(rng, posonly=True))
     for c in cases:
